@@ -234,7 +234,41 @@ def run(ctx):
         if len(big) != 4 or not all(is_tag(big[s_], t_) for s_, t_ in enumerate(('min', 'max', 'min', 'max'))):
             probs.append('big_bounding_box does not return (min, max, min, max)')
         return not probs, '; '.join(probs)
-    ob('R08.5').run(fpb, 'Path.bbox is the slot-wise union', th_pb, judge_union, opts={'ext_hooks': mm_hooks()})
+    # Path.bbox touches the segment boxes only through comparisons: decided on every sign/order pattern of two boxes
+    import itertools
+    vals = [Fr(-2), Fr(-1), Fr(1), Fr(2)]
+    bad = []
+    und = None
+    n_cases = 0
+    for a_, b_ in itertools.product(vals, repeat=2):
+        for c_, d_ in ((Fr(-3), Fr(-1)), (Fr(1), Fr(3)), (Fr(-1), Fr(1))):
+            boxA = (a_, a_ + 1, c_, c_ + 1)
+            boxB = (b_, b_ + 1, d_, d_ + 1)
+            n_cases += 1
+
+            def th_c(it, boxA=boxA, boxB=boxB):
+                segs = [it.construct('path.Line', Rat.csym('A%d' % k), Rat.csym('B%d' % k)) for k in range(2)]
+                boxes = {id(segs[0]): boxA, id(segs[1]): boxB}
+                it.call_hooks['path.Line.bbox'] = lambda it2, a, k: boxes[id(a[0])]
+                p = it.construct('path.Path', *segs)
+                return it.call_method(p, 'bbox')
+            try:
+                for pth in explore(ctx.model, th_c, {}):
+                    if pth.raised is not None:
+                        bad.append('raises %s' % pth.raised.exc_name)
+                        continue
+                    from svtstatic.values import concrete_number
+                    got = [concrete_number(x) for x in pth.value]
+                    exp = [min(boxA[0], boxB[0]), max(boxA[1], boxB[1]), min(boxA[2], boxB[2]), max(boxA[3], boxB[3])]
+                    if got != exp:
+                        bad.append('boxes %s, %s -> %s (union is %s)' % (tuple(map(str, boxA)), tuple(map(str, boxB)), [str(g) for g in got], [str(e) for e in exp]))
+            except Undecidable as e:
+                und = str(e)
+    if und:
+        ctx.undecided('R08.5', fpb.qualname, 'Path.bbox union on concrete boxes', und, where=where(fpb))
+    else:
+        ctx.record('R08.5', fpb.qualname, 'Path.bbox is the slot-wise union on %d sign/order patterns of two boxes' % n_cases, not bad,
+                   detail='; '.join(bad[:2]), where=where(fpb), sample={'patterns': n_cases})
     ob('R08.5').run(mdl.func('paths2svg.big_bounding_box'), 'big_bounding_box is the slot-wise union', th_pb, judge_union, opts={'ext_hooks': mm_hooks()})
 
 
@@ -379,6 +413,10 @@ def cubic_minmax(ctx, rule):
             if not any(c.equals(bernstein(A, Rat.sym('rho'))) for c in cands):
                 probs.append('the numeric roots are not evaluated')
             return not probs, '; '.join(probs)
+        denom_sign = path_sign(it, A[0] - 3 * A[1] + 3 * A[2] - A[3])
+        if denom_sign == frozenset('0'):
+            # the coordinate is at most quadratic in t: its interior extremum must still be looked for
+            return False, 'leading coefficient zero (degree-elevated parabola): no derivative roots are evaluated, the interior extremum is lost'
         if not delta_def:
             return None, 'local `delta` not found: closed form restructured'
         datom, dval = delta_def[0][3], delta_def[0][4]
